@@ -1,8 +1,10 @@
-from contracts import fresh, views_cache, store
+from contracts import fresh, views_cache, store, indirect, views_json
 
 def build(tier):
     ts = fresh.targets(tier) + [t for t in views_cache.targets(tier) if "CacheMeta" in t.id]
     # what a record says about its source is what write_cache put there (the stat snapshot taken when the
     # source was read and hashed, the hash of the bytes written): same target as in C04
     ts += store.protocol_targets()
-    return dict(targets=ts, assumptions=[], trusted_base=[])
+    ts += indirect.targets(tier)  # which modules a type's meaning depends on (indirect dependencies)
+    ts += views_json.cache_targets(tier)  # the JSON form of the same validity records
+    return dict(targets=ts, assumptions=["indirection.py: only visit_instance (non-protocol part) and the per-class coverage of component types are under contract; the exemptions of the coverage frame are listed in contracts/indirect.py (one of them, Parameters.variables, is an assumption that is not established); the recursion through _visit / seen_types and the callers (build.State.patch_indirect_dependencies) are not under contract"], trusted_base=[])
